@@ -20,6 +20,7 @@ use std::time::{Duration, Instant};
 
 const KINDS: &[&str] = &[
     "format", "format_flat", "tree_format", "diagnostic_annotated", "hex", "register_tags", "kv_lookup", "fn_lookup", "param_lookup", "encode", "ur",
+    "kv_held_format",
 ];
 
 fn sample() -> Envelope {
@@ -29,6 +30,12 @@ fn sample() -> Envelope {
         .add_assertion("digest", Digest::from_image(b"x"))
         .add_assertion("when", dcbor::Date::from_timestamp(1_700_000_000.0))
         .add_assertion(KnownValue::new(100_000), Envelope::new(7).wrap_envelope())
+        // long text leaves with multi-byte characters at every alignment (summaries truncate long text)
+        .add_assertion("t1", "\u{e9}".repeat(30))
+        .add_assertion("t2", format!("a{}", "\u{e9}".repeat(30)))
+        .add_assertion("t3", "\u{6f22}".repeat(20))
+        .add_assertion("t4", format!("ab{}", "\u{6f22}".repeat(20)))
+        .add_assertion("t5", format!("a{}", "\u{1f600}".repeat(12)))
 }
 
 /// Run one call kind; the returned text is what the property compares.
@@ -65,6 +72,17 @@ fn run_kind(kind: &str) -> String {
             let store = binding.as_ref().unwrap();
             bc_envelope::extension::expressions::ParametersStore::name_for_parameter(&bc_envelope::parameters::LHS, Some(store))
         }
+        "kv_held_format" => {
+            // a caller consults the known-values registry and formats while still holding its guard
+            // (after the format context has been initialised by an earlier formatting call)
+            let first = e.format();
+            let binding = known_values::KNOWN_VALUES.get();
+            #[allow(unused_variables)]
+            let mark = hooks::ReleaseMark("KV");
+            let name = binding.as_ref().unwrap().known_value_named("note").map(|k| k.value()).unwrap_or(0);
+            let second = e.format();
+            format!("{}|{}|{}", first == second, name, second)
+        }
         "encode" => hex::encode(e.tagged_cbor().to_cbor_data()),
         "ur" => {
             // ur_string needs the dcbor tag registry to know tag 200: documented precondition
@@ -86,14 +104,25 @@ fn events_json(ev: &[hooks::Event]) -> Vec<Value> {
 fn spawn_self(args: &[String], timeout: Duration) -> Result<String, String> {
     let exe = std::env::current_exe().map_err(|e| e.to_string())?;
     let mut child = Command::new(exe).args(args).stdout(Stdio::piped()).stderr(Stdio::piped()).spawn().map_err(|e| e.to_string())?;
+    // drain the pipes while waiting, or a child with much output blocks on a full pipe
+    let mut so = child.stdout.take().unwrap();
+    let mut se = child.stderr.take().unwrap();
+    let ho = std::thread::spawn(move || {
+        let mut s = String::new();
+        so.read_to_string(&mut s).ok();
+        s
+    });
+    let he = std::thread::spawn(move || {
+        let mut s = String::new();
+        se.read_to_string(&mut s).ok();
+        s
+    });
     let start = Instant::now();
     loop {
         match child.try_wait() {
             Ok(Some(status)) => {
-                let mut out = String::new();
-                child.stdout.take().unwrap().read_to_string(&mut out).ok();
-                let mut err = String::new();
-                child.stderr.take().unwrap().read_to_string(&mut err).ok();
+                let out = ho.join().unwrap_or_default();
+                let err = he.join().unwrap_or_default();
                 if !status.success() {
                     return Err(format!("child failed ({}): {}", status, err.chars().take(600).collect::<String>()));
                 }
@@ -102,6 +131,7 @@ fn spawn_self(args: &[String], timeout: Duration) -> Result<String, String> {
             Ok(None) => {
                 if start.elapsed() > timeout {
                     let _ = child.kill();
+                    let _ = child.wait();
                     return Err("TIMEOUT".into());
                 }
                 std::thread::sleep(Duration::from_millis(5));
@@ -141,8 +171,7 @@ fn main() {
                         all.insert(k.to_string(), v);
                     }
                     Err(e) => {
-                        eprintln!("extract {}: {}", k, e);
-                        std::process::exit(2);
+                        all.insert(k.to_string(), json!({"kind": k, "failed": e}));
                     }
                 }
             }
